@@ -34,6 +34,8 @@ func (v Violation) GoaName() string {
 		return "invalid_format"
 	case "type":
 		return "invalid_field_type"
+	case "uniontype":
+		return "invalid_enum_value" // the name of the alternative is documented as an enumeration of the alternatives' names
 	}
 	return v.Rule
 }
@@ -125,6 +127,8 @@ func Validate(sp *spec.Spec, t *spec.Type, val *spec.Val, v any, path string, ou
 			Validate(sp, rt.Key.Type, rt.Key.Val, k, path+"{key}", out, undecided, depth+1)
 			Validate(sp, rt.Elem.Type, rt.Elem.Val, e, path+"{"+k+"}", out, undecided, depth+1)
 		}
+	case spec.Union:
+		validateUnion(sp, rt, v, path, out, undecided, depth) // union.go
 	}
 }
 
